@@ -12,10 +12,10 @@ from harness import build
 
 PROPERTY = 'C15'
 LEVEL = 'exploration'
-RULE = ('pool of 22 texts chosen to leave lexer/ply state dirty (valid programs, unterminated string, mismatched ")", '
+RULE = ('pool of 26 texts chosen to leave lexer/ply state dirty (valid programs, unterminated string, mismatched ")", '
         'open "if(" header, text ending inside a regex, text ending right after an inserted semicolon, comments, '
-        'CRLF, texts that begin with a regex literal and texts that end on a division-implying token without a semicolon, a function-expression statement (ProductionError path), regex after "}" (back-tracking path), U+2028, texts that end with comments still pending) '
-        'x comment-capture flag = 44 calls, plus 8 calls through the calmjs.parse.es5 helper object, plus the deferred arrangement (the Parser object of call A is built, call B runs completely, then the object parses A). The expected outcome of each call - ReprWalker dump with positions plus '
+        'CRLF, texts that begin with a regex literal and texts that end on a division-implying token without a semicolon, a function-expression statement (ProductionError path), regex after "}" (back-tracking path), U+2028, texts that end with comments still pending, an error reported with a look-ahead across a line break at ++, a directive prologue followed by the words only strict code reserves used as identifiers) '
+        'x comment-capture flag = 52 calls, plus 8 calls through the calmjs.parse.es5 helper object, plus the deferred arrangement (the Parser object of call A is built, call B runs completely, then the object parses A). The expected outcome of each call - ReprWalker dump with positions plus '
         'attached comments plus the per-node table of literal-token positions, or exception type and message - is computed in a fresh interpreter per text. '
         '(i) exhaustively all call sequences of length <= 2 (quick) / <= 3 (thorough) in one process, every result '
         'compared with the fresh-process value; (ii) Hypothesis-generated long histories (<= 200 steps) that also '
@@ -49,6 +49,12 @@ TEXTS = [
     '/=/g.exec(y) / 2',
     'a = 1; // the text ends inside a comment',
     'b; /* pending */ /* comments */',
+    # an error whose reporting looks one token ahead, across a line break, at ++
+    'a b\n++c',
+    'x\n',
+    # a directive prologue, then the words only strict code reserves, as plain identifiers
+    '"use strict"; function g() { \'use strict\'; return 1 }',
+    'var let = 1, static = 2; yield = interface + package; implements: private = public(protected);',
 ]
 CALLS = [(i, wc) for i in range(len(TEXTS)) for wc in (False, True)]
 # texts that are also parsed through the `calmjs.parse.es5(...)` helper object (same parser behind it)
